@@ -552,11 +552,13 @@ for _p, _t in {
     "C05": "Kani/CBMC: per-feature key distinctness stated on the engine's leaf functions (symbolic square / contents / state bytes); native exhaustive pairwise-XOR test",
     "C11": "Kani/CBMC on verbatim slices of Game::fen (per rank, fields) with String appends sent to a byte sink, and of the importer; native export->import round-trip test",
     "C12": "Kani/CBMC: printer and parser contracts over symbolic positions and ALL ASCII strings of length <= 6 (7 in the thorough tier); slice of command_position's per-move step against abstract parser / generator / push_history",
-    "C13": "Kani/CBMC on the verbatim budget slice of command_go over the full u64 domain, std Duration stubbed by an order embedding",
-    "C15": "Verus on the mechanically extracted Position functions; Kani/CBMC contract harnesses whose implicit pointer / bounds / debug-assertion checks are the obligations, per unsafe site",
+    "C13": "Kani/CBMC on the verbatim budget slice of command_go over the full u64 domain, std Duration stubbed by an order embedding; "
+           "the timer block (verbatim slice) by a native test with real threads, labelled a test (Kani cannot compile it)",
+    "C15": "Verus on the mechanically extracted Position functions; Kani/CBMC contract harnesses whose implicit pointer / bounds / debug-assertion checks are the obligations, per unsafe site "
+           "(move buffer: the push closure slice for every list length 0..=255, buffer capacity taken from get_moves' signature)",
     "C16": "Kani/CBMC: Piece::score == specified piece-square value (full domain), set_position contract, modular push/pop step, update_phase contract against an abstract is_endgame",
     "C17": "Kani/CBMC on verbatim slices of Game::new: scanner step over all chars x all scanner states, field parsers over all short ASCII strings, board-end test, tail",
-    "C20": "Kani/CBMC: Move::pgn_notation against the specified record text for every move value; slices of get_pgn and fen; native display test",
+    "C20": "Kani/CBMC: Move::pgn_notation against the specified record text for every move value; slices of get_pgn, of fen and of the diagram cell expression of Display (symbolic board and cell); native display test for the loop glue",
 }.items():
     PROPS[_p]["technique"] = _t
 
